@@ -34,6 +34,8 @@ def run(ctx):
     rulecheck.run_profile(ctx, "c17", n, classify=None)
     # the tie of the local theorems' models (Model/Refactor.v, Model/Removal.v, Model/Visit.v) to the Rust rules
     removal_gen.run_stream(ctx, ctx.prop)
+    # property-level oracle on templates (incl. the recorded finding classes)
+    removal_gen.run_behaviour(ctx, ctx.prop)
     if not proofs_ok and not ctx.violations:
         failed = [n for n, ok, _ in ctx.obligations if not ok]
         ctx.violation("proof obligation no longer checks: " + "; ".join(failed), {"obligations": failed},
